@@ -27,7 +27,11 @@ GROUPS = [
     # additional property memberships (the file is decided by the first match above)
     ("+c03", r"^primitive::(End|Any)\[Parser\]|^combinator::ThenIgnore\[Parser\]|^combinator::Repeated\[(Parser|IterParser)\]", ["C03"]),
     ("+c07", r"^combinator::(ToSlice|ToSpan|MapWith|TryMap|TryMapWith|Validate|FoldlWith|FoldrWith|Filter)\[|^primitive::(Select|SelectRef)\[|^pratt::|\[pratt::Operator\]", ["C07"]),
-    ("+c01", r"^combinator::OrNot\[IterParser\]", ["C01"]),
+    # sequencing / option in iterable form: `a.then(b)` over iterables runs A's items before B is even set up
+    ("+c01", r"^combinator::(OrNot|Then|Map|MapWith)\[IterParser\]", ["C01"]),
+    # a left-recursive / re-entrant recursive grammar is the one place where the SAME Memoized instance is entered again while it is
+    # running: `equals its unrolling` (C12) then rests on the marker protocol; what recovery reports is the pending error (C08)
+    ("+c12", r"^combinator::Memoized\[", ["C12", "C08"]),
     # C04 (mode classes of every child call), C05 (emit effects, restore positions) and C06 (`alt` effects: what error is recorded,
     # with which span/found, ranked where) are statements about every automaton
     ("+c04", r".", ["C04"]),
